@@ -8,7 +8,7 @@
    What the reader yields for damaged files (missing / wrong size) is the subject
    of C10/C20 and enters here as the item list. *)
 From Coq Require Import Lia.
-From Torf Require Import Base Extracted Corrupt CorruptProofs Pipeline PipelineProofs FlowProofs PipeExplore PipeExploreProofs PipeConfigs VerifyTrueProofs.
+From Torf Require Import Base Extracted Corrupt CorruptProofs Pipeline PipelineProofs FlowProofs PipeExplore PipeExploreProofs PipeConfigs VerifyTrueProofs VerifyFalseProofs.
 Open Scope Z_scope.
 
 (* a changed byte at stream position p inside file k: the content error for piece p / L names file k *)
@@ -43,6 +43,31 @@ Theorem C02_true_means_intact : forall c s expd hs,
   s_result s = Some ResTrue -> hs = expd.
 Proof. exact verify_true_means_intact. Qed.
 Print Assumptions C02_true_means_intact.
+
+(* UNBOUNDED, the other direction: a run that ends with a verdict (True or False, no exception raised) carries
+   exactly the verdict of the comparison -- True iff the collected hashes, in piece order, are the recorded ones. *)
+Theorem C02_verdict_is_comparison : forall c s expd r,
+  reach c s -> cf_verify c = Some expd -> s_result s = Some r -> decided r ->
+  (r = ResTrue <-> sorted_hashes (s_hashes s) = expd).
+Proof. exact verify_verdict_is_comparison. Qed.
+Print Assumptions C02_verdict_is_comparison.
+
+(* UNBOUNDED: intact, fully readable content is never declared corrupt: a run over it that returns False has
+   collected fewer hashes than there are pieces, i.e. it was cut short (cancelled) -- whatever the schedule. *)
+Theorem C02_false_on_intact_is_incomplete : forall c s expd,
+  reach c s -> cf_verify c = Some expd -> yielded (cf_items c) = map RPiece expd ->
+  s_result s = Some ResFalse -> (length (s_hashes s) < length expd)%nat.
+Proof. exact verify_false_on_intact_is_incomplete. Qed.
+Print Assumptions C02_false_on_intact_is_incomplete.
+
+(* non-vacuity: 40 intact pieces, one hasher, a callback that cancels at the first report: the run is reachable,
+   returns False and has collected 4 hashes *)
+Definition C02_hs := map Z.of_nat (seq 1 40).
+Definition C02_cancel := mk (map RPiece C02_hs) 40 1 (CbCancelFrom 1) [] (Some C02_hs).
+Example C02_false_on_intact_example :
+  let s := auto_run 3000 C02_cancel (init C02_cancel) in
+  reach C02_cancel s /\ yielded (cf_items C02_cancel) = map RPiece C02_hs /\ s_result s = Some ResFalse /\ length (s_hashes s) = 4%nat.
+Proof. split; [apply auto_run_reach; constructor|vm_compute; repeat split; reflexivity]. Qed.
 
 (* under every schedule: intact content verifies; a corrupt piece gives a content error without callback
    and False with one; an item with a read error gives that error / False *)
